@@ -166,3 +166,10 @@ func Walk(r metadata.Reader, lim WalkLimits, visit func(NodeInfo) error) (nodes 
 	err = rec(root, "", 0)
 	return nodes, truncated, err
 }
+
+// DBStore returns a metadata.Store over the given bolt DB.
+func DBStore(db *bolt.DB) metadata.Store {
+	return func(sr *io.SectionReader, opts ...metadata.Option) (metadata.Reader, error) {
+		return dbmetadata.NewReader(db, sr, opts...)
+	}
+}
